@@ -172,7 +172,7 @@ impl<T: CellT + std::hash::Hash> Machine<T> {
 
     /// Perform one concrete call.  Returns the observed result.
     /// `args` have already been made concrete (`usize` values); `items` are origins.
-    fn call(&mut self, op: &str, a: &Value, conc: &[usize], mode: LenMode) -> Value {
+    pub fn call(&mut self, op: &str, a: &Value, conc: &[usize], mode: LenMode) -> Value {
         let supplied: Vec<T> = match a.get("items") {
             Some(_) => make_items::<T>(&get_list(a, "items")),
             None => Vec::new(),
@@ -505,7 +505,7 @@ fn big_context(op: &str, which: usize, nc: usize, nr: usize, len: usize) -> (Vec
 }
 
 /// The arguments of `op` that are coordinates/indices (may be Big), in the order `call` expects.
-fn index_args(op: &str, a: &Value) -> Vec<u64> {
+pub fn index_args(op: &str, a: &Value) -> Vec<u64> {
     match op {
         "new" | "init" | "from_vec" | "from_box" => vec![get_u64(a, "nc"), get_u64(a, "nr")],
         "insert_row" | "insert_col" | "remove_row" | "remove_col" => vec![get_u64(a, "index")],
@@ -565,7 +565,7 @@ fn res_matches<T: CellT>(exp: &Value, got: &Value) -> bool {
 }
 
 /// One trace event: what the real code showed after one public call (Appendix A of DESIGN.md).
-fn event<T: CellT + std::hash::Hash>(m: &Machine<T>, op: &str, a: &Value, res: &Value, fault: Option<&Value>, fired: bool,
+pub fn event<T: CellT + std::hash::Hash>(m: &Machine<T>, op: &str, a: &Value, res: &Value, fault: Option<&Value>, fired: bool,
                                      pre: &[u32], supplied: &[u32]) -> Value {
     let observable = m.arr.is_some() && m.handle.is_none();
     let post = if observable {
